@@ -32,7 +32,8 @@ RULE = ('connect: client.connect(MemoryReactorClock, address) for address lists 
         'callback nobody cancelled before its turn ran exactly once, and nothing - in particular no call issued during '
         'the notification - completes after connectionLost returned (clock run dry). Non-trivial = '
         'a crash point strictly between connection and Hello reply, or >=1 call with a timer, or >=1 proxy callback, or '
-        'a re-entrant action; distinct = distinct case JSON.')
+        'a re-entrant action; distinct = distinct case JSON. Loss histories include calls answered synchronously (inside '
+        'transport.write) and a close requested by the application before the transport reports the loss.')
 ASSUMPTIONS = ['proxies are kept strongly referenced by the harness (the registry is weak by design)',
                'user callbacks neither raise nor re-enter callRemote']
 
@@ -325,9 +326,37 @@ def _run_loss(case, lose_at):
         explicit = I.DBusInterface('org.verif.Explicit', I.Method('Echo', 's', 's'), I.Signal('Sig', 'i'), noRegister=True)
         rig.sent_messages()
 
+        closing = []
+
         def do(op):
             k = op[0]
-            if k == 'call':
+            if k in ('call', 'call_sync', 'call_noreply') and closing:
+                return False    # nobody issues calls on a connection they asked to be closed
+            if k == 'close_req':
+                # disconnect() was called; the transport has not closed yet
+                if not closing:
+                    closing.append(True)
+                    rig.transport.linger = True
+                    rig.conn.disconnect()
+            elif k == 'call_sync':
+                # answered by a peer in the same process while transport.write() is still on the stack
+                c = {'results': [], 'done': True, 'timeout': op[1]}
+
+                def answer_at_once(data):
+                    rig.transport.on_write = None
+                    m = R.decode_message(data)
+                    N.deliver(rig.conn, R.encode_variant(m['serial'], 2, 905, {5: m['serial']}, 's', ['sync']))
+                rig.transport.on_write = answer_at_once
+                try:
+                    d = rig.conn.callRemote('/o', 'M', interface='a.b', destination='c.d', timeout=op[1])
+                finally:
+                    rig.transport.on_write = None
+                d.addBoth(c['results'].append)
+                c['d'] = d
+                sent = [m for kk, m in rig.sent_messages() if kk == 'msg']
+                c['serial'] = sent[0]['serial']
+                calls.append(c)
+            elif k == 'call':
                 c = {'results': [], 'done': False, 'timeout': op[1]}
                 d = rig.conn.callRemote('/o', 'M', interface='a.b', destination='c.d', timeout=op[1])
                 d.addBoth(c['results'].append)
@@ -435,8 +464,8 @@ def _run_loss(case, lose_at):
         for i, op in enumerate(case['ops'][:lose_at]):
             if op[0] == 'call':
                 t0 = rig.clock.seconds()
-            do(op)
-            if op[0] == 'call':
+            skipped = do(op) is False
+            if op[0] == 'call' and not skipped:
                 calls[-1]['deadline'] = (t0 + op[1]) if op[1] else None
             if op[0] == 'advance':
                 now = rig.clock.seconds()
@@ -533,6 +562,10 @@ def classify_loss(case):
         labels.append('caller_cancels_call')
     if any(o[0] == 'call' and o[1] is not None and not o[1] for o in ops):
         labels.append('timeout_zero')
+    if any(o[0] == 'call_sync' for o in ops):
+        labels.append('synchronous_reply')
+    if any(o[0] == 'close_req' for o in ops):
+        labels.append('close_requested_first')
     return ('call_with_timer' in labels or 'proxy_callback' in labels), sorted(set(labels))
 
 
@@ -543,7 +576,8 @@ def loss_case(draw, tier):
     ncalls = 0
     for _ in range(n):
         k = draw(st.sampled_from(['call', 'call', 'reply', 'error_reply', 'conn_cb', 'conn_cb_cancel', 'proxy', 'proxy', 'proxy_cb',
-                                  'proxy_cb', 'proxy_cb_cancel', 'proxy_signal', 'advance', 'cancel_call', 'call_noreply']))
+                                  'proxy_cb', 'proxy_cb_cancel', 'proxy_signal', 'advance', 'cancel_call', 'call_noreply',
+                                  'call_sync', 'close_req' if draw(st.integers(0, 2)) == 0 else 'call_sync']))
         if k == 'call':
             if ncalls >= 4:
                 continue
@@ -555,7 +589,7 @@ def loss_case(draw, tier):
                         draw(st.sampled_from(['/obj', '/obj', '/other']))])
         elif k == 'advance':
             ops.append(['advance', draw(st.sampled_from([1, 4, 6, 30]))])
-        elif k == 'call_noreply':
+        elif k in ('call_noreply', 'call_sync'):
             ops.append([k, draw(st.sampled_from([None, 5, 0, 30]))])
         elif k in ('reply', 'error_reply', 'conn_cb_cancel', 'proxy_cb', 'proxy_cb_cancel', 'proxy_signal', 'cancel_call'):
             ops.append([k, draw(st.integers(0, 5))])
